@@ -460,6 +460,12 @@ pub fn run_lib(dir: &Path, name: &str, source: &[u8], spec: &CompressSpec, inj: 
         cmd.env_remove("BITA_VERIF_DELAY");
     }
     cmd.env("RUST_BACKTRACE", "0");
+    // same memory gate as the CLI children (see proc::mem_gate)
+    let level = match spec.comp {
+        crate::gen::Comp::None => 0,
+        crate::gen::Comp::Brotli(l) | crate::gen::Comp::Zstd(l) | crate::gen::Comp::Lzma(l) => l as u64,
+    };
+    let _mem = proc::mem_gate(proc::codec_ctx_mb(spec.comp.family(), level) * spec.buffered.unwrap_or(4).clamp(1, 2 * crate::util::ncpu()) as u64 + 30);
     let start = std::time::Instant::now();
     let out = cmd.output();
     let (exit, tail) = match out {
